@@ -1055,7 +1055,7 @@ class TokenizerCore:
             elif token_type == TokenType.BIT_STRING:
                 base = 2
             elif token_type == TokenType.HEREDOC_STRING:
-                line, col = self._line, self._col
+                line, col, current = self._line, self._col, self._current
                 self._advance()
 
                 if self._char == end:
@@ -1072,11 +1072,9 @@ class TokenizerCore:
                     and self.heredoc_tag_is_identifier
                     and (self._end or tag.isdigit() or any(c.isspace() for c in tag))
                 ):
-                    if not self._end:
-                        self._advance(-1)
-
-                    self._advance(-len(tag))
-                    # Retreating doesn't undo the line / column bookkeeping done while scanning the tag
+                    # Go back to the `$`. Retreating doesn't undo the line / column bookkeeping
+                    # done while scanning the tag, so that is restored explicitly
+                    self._advance(current - self._current)
                     self._line, self._col = line, col
                     self._add(self.heredoc_string_alternative)
                     return True
